@@ -626,13 +626,15 @@ func (loader *Loader) resolveHeaderRef(doc *T, component *HeaderRef, documentPat
 	}
 
 	if ref := component.Ref; ref != "" {
+		// the in-progress set is keyed by kind and text: the same text met as another kind is resolved on its own
+		key := "Header " + ref
 		if component.Value != nil {
 			return nil
 		}
-		if !loader.shouldVisitRef(ref, func(value any) {
+		if !loader.shouldVisitRef(key, func(value any) {
 			v, ok := value.(*Header)
 			if !ok {
-				return // the reference is in progress for another kind of component: leave it unresolved
+				return // unreachable since the in-progress set is keyed by kind
 			}
 			component.Value = v
 			refPath, _ := loader.resolveRefPath(ref, documentPath)
@@ -640,7 +642,7 @@ func (loader *Loader) resolveHeaderRef(doc *T, component *HeaderRef, documentPat
 		}) {
 			return nil
 		}
-		loader.visitRef(ref)
+		loader.visitRef(key)
 		if isSingleRefElement(ref) {
 			var header Header
 			if documentPath, err = loader.loadSingleElementFromURI(ref, documentPath, &header); err != nil {
@@ -663,7 +665,7 @@ func (loader *Loader) resolveHeaderRef(doc *T, component *HeaderRef, documentPat
 			component.Value = resolved.Value
 			component.setRefPath(resolved.RefPath())
 		}
-		defer loader.unvisitRef(ref, component.Value)
+		defer loader.unvisitRef(key, component.Value)
 	}
 	value := component.Value
 	if value == nil {
@@ -687,13 +689,15 @@ func (loader *Loader) resolveParameterRef(doc *T, component *ParameterRef, docum
 	}
 
 	if ref := component.Ref; ref != "" {
+		// the in-progress set is keyed by kind and text: the same text met as another kind is resolved on its own
+		key := "Parameter " + ref
 		if component.Value != nil {
 			return nil
 		}
-		if !loader.shouldVisitRef(ref, func(value any) {
+		if !loader.shouldVisitRef(key, func(value any) {
 			v, ok := value.(*Parameter)
 			if !ok {
-				return // the reference is in progress for another kind of component: leave it unresolved
+				return // unreachable since the in-progress set is keyed by kind
 			}
 			component.Value = v
 			refPath, _ := loader.resolveRefPath(ref, documentPath)
@@ -701,7 +705,7 @@ func (loader *Loader) resolveParameterRef(doc *T, component *ParameterRef, docum
 		}) {
 			return nil
 		}
-		loader.visitRef(ref)
+		loader.visitRef(key)
 		if isSingleRefElement(ref) {
 			var param Parameter
 			if documentPath, err = loader.loadSingleElementFromURI(ref, documentPath, &param); err != nil {
@@ -724,7 +728,7 @@ func (loader *Loader) resolveParameterRef(doc *T, component *ParameterRef, docum
 			component.Value = resolved.Value
 			component.setRefPath(resolved.RefPath())
 		}
-		defer loader.unvisitRef(ref, component.Value)
+		defer loader.unvisitRef(key, component.Value)
 	}
 	value := component.Value
 	if value == nil {
@@ -751,13 +755,15 @@ func (loader *Loader) resolveRequestBodyRef(doc *T, component *RequestBodyRef, d
 	}
 
 	if ref := component.Ref; ref != "" {
+		// the in-progress set is keyed by kind and text: the same text met as another kind is resolved on its own
+		key := "RequestBody " + ref
 		if component.Value != nil {
 			return nil
 		}
-		if !loader.shouldVisitRef(ref, func(value any) {
+		if !loader.shouldVisitRef(key, func(value any) {
 			v, ok := value.(*RequestBody)
 			if !ok {
-				return // the reference is in progress for another kind of component: leave it unresolved
+				return // unreachable since the in-progress set is keyed by kind
 			}
 			component.Value = v
 			refPath, _ := loader.resolveRefPath(ref, documentPath)
@@ -765,7 +771,7 @@ func (loader *Loader) resolveRequestBodyRef(doc *T, component *RequestBodyRef, d
 		}) {
 			return nil
 		}
-		loader.visitRef(ref)
+		loader.visitRef(key)
 		if isSingleRefElement(ref) {
 			var requestBody RequestBody
 			if documentPath, err = loader.loadSingleElementFromURI(ref, documentPath, &requestBody); err != nil {
@@ -788,7 +794,7 @@ func (loader *Loader) resolveRequestBodyRef(doc *T, component *RequestBodyRef, d
 			component.Value = resolved.Value
 			component.setRefPath(resolved.RefPath())
 		}
-		defer loader.unvisitRef(ref, component.Value)
+		defer loader.unvisitRef(key, component.Value)
 	}
 	value := component.Value
 	if value == nil {
@@ -844,13 +850,15 @@ func (loader *Loader) resolveResponseRef(doc *T, component *ResponseRef, documen
 	}
 
 	if ref := component.Ref; ref != "" {
+		// the in-progress set is keyed by kind and text: the same text met as another kind is resolved on its own
+		key := "Response " + ref
 		if component.Value != nil {
 			return nil
 		}
-		if !loader.shouldVisitRef(ref, func(value any) {
+		if !loader.shouldVisitRef(key, func(value any) {
 			v, ok := value.(*Response)
 			if !ok {
-				return // the reference is in progress for another kind of component: leave it unresolved
+				return // unreachable since the in-progress set is keyed by kind
 			}
 			component.Value = v
 			refPath, _ := loader.resolveRefPath(ref, documentPath)
@@ -858,7 +866,7 @@ func (loader *Loader) resolveResponseRef(doc *T, component *ResponseRef, documen
 		}) {
 			return nil
 		}
-		loader.visitRef(ref)
+		loader.visitRef(key)
 		if isSingleRefElement(ref) {
 			var resp Response
 			if documentPath, err = loader.loadSingleElementFromURI(ref, documentPath, &resp); err != nil {
@@ -881,7 +889,7 @@ func (loader *Loader) resolveResponseRef(doc *T, component *ResponseRef, documen
 			component.Value = resolved.Value
 			component.setRefPath(resolved.RefPath())
 		}
-		defer loader.unvisitRef(ref, component.Value)
+		defer loader.unvisitRef(key, component.Value)
 	}
 	value := component.Value
 	if value == nil {
@@ -912,13 +920,15 @@ func (loader *Loader) resolveSchemaRef(doc *T, component *SchemaRef, documentPat
 	}
 
 	if ref := component.Ref; ref != "" {
+		// the in-progress set is keyed by kind and text: the same text met as another kind is resolved on its own
+		key := "Schema " + ref
 		if component.Value != nil {
 			return nil
 		}
-		if !loader.shouldVisitRef(ref, func(value any) {
+		if !loader.shouldVisitRef(key, func(value any) {
 			v, ok := value.(*Schema)
 			if !ok {
-				return // the reference is in progress for another kind of component: leave it unresolved
+				return // unreachable since the in-progress set is keyed by kind
 			}
 			component.Value = v
 			refPath, _ := loader.resolveRefPath(ref, documentPath)
@@ -926,7 +936,7 @@ func (loader *Loader) resolveSchemaRef(doc *T, component *SchemaRef, documentPat
 		}) {
 			return nil
 		}
-		loader.visitRef(ref)
+		loader.visitRef(key)
 		if isSingleRefElement(ref) {
 			var schema Schema
 			if documentPath, err = loader.loadSingleElementFromURI(ref, documentPath, &schema); err != nil {
@@ -949,7 +959,7 @@ func (loader *Loader) resolveSchemaRef(doc *T, component *SchemaRef, documentPat
 			component.Value = resolved.Value
 			component.setRefPath(resolved.RefPath())
 		}
-		defer loader.unvisitRef(ref, component.Value)
+		defer loader.unvisitRef(key, component.Value)
 	}
 	value := component.Value
 	if value == nil {
@@ -1002,13 +1012,15 @@ func (loader *Loader) resolveSecuritySchemeRef(doc *T, component *SecurityScheme
 	}
 
 	if ref := component.Ref; ref != "" {
+		// the in-progress set is keyed by kind and text: the same text met as another kind is resolved on its own
+		key := "SecurityScheme " + ref
 		if component.Value != nil {
 			return nil
 		}
-		if !loader.shouldVisitRef(ref, func(value any) {
+		if !loader.shouldVisitRef(key, func(value any) {
 			v, ok := value.(*SecurityScheme)
 			if !ok {
-				return // the reference is in progress for another kind of component: leave it unresolved
+				return // unreachable since the in-progress set is keyed by kind
 			}
 			component.Value = v
 			refPath, _ := loader.resolveRefPath(ref, documentPath)
@@ -1016,7 +1028,7 @@ func (loader *Loader) resolveSecuritySchemeRef(doc *T, component *SecurityScheme
 		}) {
 			return nil
 		}
-		loader.visitRef(ref)
+		loader.visitRef(key)
 		if isSingleRefElement(ref) {
 			var scheme SecurityScheme
 			if documentPath, err = loader.loadSingleElementFromURI(ref, documentPath, &scheme); err != nil {
@@ -1039,7 +1051,7 @@ func (loader *Loader) resolveSecuritySchemeRef(doc *T, component *SecurityScheme
 			component.Value = resolved.Value
 			component.setRefPath(resolved.RefPath())
 		}
-		defer loader.unvisitRef(ref, component.Value)
+		defer loader.unvisitRef(key, component.Value)
 	}
 	return nil
 }
@@ -1050,13 +1062,15 @@ func (loader *Loader) resolveExampleRef(doc *T, component *ExampleRef, documentP
 	}
 
 	if ref := component.Ref; ref != "" {
+		// the in-progress set is keyed by kind and text: the same text met as another kind is resolved on its own
+		key := "Example " + ref
 		if component.Value != nil {
 			return nil
 		}
-		if !loader.shouldVisitRef(ref, func(value any) {
+		if !loader.shouldVisitRef(key, func(value any) {
 			v, ok := value.(*Example)
 			if !ok {
-				return // the reference is in progress for another kind of component: leave it unresolved
+				return // unreachable since the in-progress set is keyed by kind
 			}
 			component.Value = v
 			refPath, _ := loader.resolveRefPath(ref, documentPath)
@@ -1064,7 +1078,7 @@ func (loader *Loader) resolveExampleRef(doc *T, component *ExampleRef, documentP
 		}) {
 			return nil
 		}
-		loader.visitRef(ref)
+		loader.visitRef(key)
 		if isSingleRefElement(ref) {
 			var example Example
 			if documentPath, err = loader.loadSingleElementFromURI(ref, documentPath, &example); err != nil {
@@ -1087,7 +1101,7 @@ func (loader *Loader) resolveExampleRef(doc *T, component *ExampleRef, documentP
 			component.Value = resolved.Value
 			component.setRefPath(resolved.RefPath())
 		}
-		defer loader.unvisitRef(ref, component.Value)
+		defer loader.unvisitRef(key, component.Value)
 	}
 	return nil
 }
@@ -1098,13 +1112,15 @@ func (loader *Loader) resolveCallbackRef(doc *T, component *CallbackRef, documen
 	}
 
 	if ref := component.Ref; ref != "" {
+		// the in-progress set is keyed by kind and text: the same text met as another kind is resolved on its own
+		key := "Callback " + ref
 		if component.Value != nil {
 			return nil
 		}
-		if !loader.shouldVisitRef(ref, func(value any) {
+		if !loader.shouldVisitRef(key, func(value any) {
 			v, ok := value.(*Callback)
 			if !ok {
-				return // the reference is in progress for another kind of component: leave it unresolved
+				return // unreachable since the in-progress set is keyed by kind
 			}
 			component.Value = v
 			refPath, _ := loader.resolveRefPath(ref, documentPath)
@@ -1112,7 +1128,7 @@ func (loader *Loader) resolveCallbackRef(doc *T, component *CallbackRef, documen
 		}) {
 			return nil
 		}
-		loader.visitRef(ref)
+		loader.visitRef(key)
 		if isSingleRefElement(ref) {
 			var resolved Callback
 			if documentPath, err = loader.loadSingleElementFromURI(ref, documentPath, &resolved); err != nil {
@@ -1135,7 +1151,7 @@ func (loader *Loader) resolveCallbackRef(doc *T, component *CallbackRef, documen
 			component.Value = resolved.Value
 			component.setRefPath(resolved.RefPath())
 		}
-		defer loader.unvisitRef(ref, component.Value)
+		defer loader.unvisitRef(key, component.Value)
 	}
 	value := component.Value
 	if value == nil {
@@ -1158,13 +1174,15 @@ func (loader *Loader) resolveLinkRef(doc *T, component *LinkRef, documentPath *u
 	}
 
 	if ref := component.Ref; ref != "" {
+		// the in-progress set is keyed by kind and text: the same text met as another kind is resolved on its own
+		key := "Link " + ref
 		if component.Value != nil {
 			return nil
 		}
-		if !loader.shouldVisitRef(ref, func(value any) {
+		if !loader.shouldVisitRef(key, func(value any) {
 			v, ok := value.(*Link)
 			if !ok {
-				return // the reference is in progress for another kind of component: leave it unresolved
+				return // unreachable since the in-progress set is keyed by kind
 			}
 			component.Value = v
 			refPath, _ := loader.resolveRefPath(ref, documentPath)
@@ -1172,7 +1190,7 @@ func (loader *Loader) resolveLinkRef(doc *T, component *LinkRef, documentPath *u
 		}) {
 			return nil
 		}
-		loader.visitRef(ref)
+		loader.visitRef(key)
 		if isSingleRefElement(ref) {
 			var link Link
 			if documentPath, err = loader.loadSingleElementFromURI(ref, documentPath, &link); err != nil {
@@ -1195,7 +1213,7 @@ func (loader *Loader) resolveLinkRef(doc *T, component *LinkRef, documentPath *u
 			component.Value = resolved.Value
 			component.setRefPath(resolved.RefPath())
 		}
-		defer loader.unvisitRef(ref, component.Value)
+		defer loader.unvisitRef(key, component.Value)
 	}
 	return nil
 }
@@ -1207,17 +1225,19 @@ func (loader *Loader) resolvePathItemRef(doc *T, pathItem *PathItem, documentPat
 	}
 
 	if ref := pathItem.Ref; ref != "" {
+		// the in-progress set is keyed by kind and text: the same text met as another kind is resolved on its own
+		key := "PathItem " + ref
 		if !pathItem.isEmpty() {
 			return
 		}
-		if !loader.shouldVisitRef(ref, func(value any) {
+		if !loader.shouldVisitRef(key, func(value any) {
 			if v, ok := value.(*PathItem); ok && v != nil {
 				*pathItem = *v
 			}
 		}) {
 			return nil
 		}
-		loader.visitRef(ref)
+		loader.visitRef(key)
 		if isSingleRefElement(ref) {
 			var p PathItem
 			if documentPath, err = loader.loadSingleElementFromURI(ref, documentPath, &p); err != nil {
@@ -1241,7 +1261,7 @@ func (loader *Loader) resolvePathItemRef(doc *T, pathItem *PathItem, documentPat
 			*pathItem = resolved
 		}
 		pathItem.Ref = ref
-		defer loader.unvisitRef(ref, pathItem)
+		defer loader.unvisitRef(key, pathItem)
 	}
 
 	for _, parameter := range pathItem.Parameters {
